@@ -49,4 +49,6 @@ Definition create_temp_dir_body : string := "i = 1 ; while True:
     else:
         self.temp_dir = temp_dir
         break"%string.
+Definition testcase_methods : list string := ["Testcase(abc.ABC): __init__ __len__ _slice_xlat rmslice copy load add_arguments handle_args split_parts dump | "%string; "TestcaseLine(Testcase): split_parts | atom args arg_help"%string; "TestcaseChar(Testcase): load split_parts | atom args arg_help"%string; "TestcaseJsStr(Testcase): split_parts | atom args arg_help"%string; "TestcaseSymbol(Testcase): __init__ copy set_cut_chars split_parts handle_args add_arguments | atom DEFAULT_CUT_AFTER DEFAULT_CUT_BEFORE args arg_help"%string; "TestcaseAttrs(Testcase): split_parts | atom args arg_help TAG_PATTERN ATTR_PATTERN"%string].
+Definition strategy_methods : list string := ["ReductionIterator(abc.ABC): __init__ last_feedback update_tried get_tried feedback try_testcase testcase reduced description __iter__ wrap | "%string; "Strategy(abc.ABC): add_args process_args reduce main | "%string; "CheckOnly(Strategy): reduce main | name"%string; "Minimize(Strategy): __init__ _chunk_iters add_args process_args _post_round_cb reduce | name"%string; "MinimizeSurroundingPairs(Minimize): reduce try_removing_chunks | name"%string; "MinimizeBalancedPairs(MinimizeSurroundingPairs): __init__ add_args process_args try_removing_chunks | name"%string; "ReplacePropertiesByGlobals(Minimize): reduce try_making_globals | name"%string; "ReplaceArgumentsByGlobals(Minimize): reduce try_arguments_as_globals | name"%string; "CollapseEmptyBraces(Minimize): _post_round_cb | name"%string].
 End Pins.
